@@ -507,31 +507,36 @@ func decodedParts(tok string) (string, string) {
 }
 
 // soundnessSignature classifies "accepted although the reference rejects" narrowly.
-func soundnessSignature(inst *authInst, tc *tokCase, ref refResult, t0, t1 time.Time) string {
+func (w *world) soundnessSignature(inst *authInst, ks *keySet, tc *tokCase, ref refResult, t0, t1 time.Time) (string, string) {
 	_, pl := decodedParts(tc.Token)
 	if p, ok := decodeObject([]byte(pl)); ok {
 		switch ref.Why {
 		case "expired":
 			if exp, present, ok := numClaim(p["exp"]); present && ok && exp <= 0 {
-				return "nonpositive-exp-accepted"
+				return "nonpositive-exp-accepted", ref.Why
 			}
 		case "not yet valid":
 			if nbf, present, ok := numClaim(p["nbf"]); present && ok && nbf >= 9.2e18 {
-				return "nbf-beyond-int64-accepted"
+				return "nbf-beyond-int64-accepted", ref.Why
 			}
 		}
 		if (ref.Why == "expired" || ref.Why == "not yet valid") && inst.ZeroLee {
 			relaxed := inst.Spec
 			relaxed.Leeway = inst.Fallback
 			if v, _ := refClaims(&relaxed, p, t0, t1); v != vReject {
-				return "zero-leeway-ignored"
+				return "zero-leeway-ignored", ref.Why
 			}
 		}
 	}
-	return "accepted-" + slug(ref.Why)
+	why := ref.Why
+	switch why {
+	case "signature does not verify", "declared key alg differs from token alg", "key certificate not valid", "no key for kid":
+		why = refDiagnose(&inst.Spec, ks, w.certOK(&inst.Spec), tc.Token, why)
+	}
+	return "accepted-" + slug(why), why
 }
 
-func (w *world) runOne(st *stats, inst *authInst, ks *keySet, tc *tokCase) {
+func (w *world) runOne(st *stats, inst *authInst, ks *keySet, tc *tokCase) (refV verdict, accepted bool) {
 	ctx := newCtx(tc)
 	var (
 		sub      *subject.Subject
@@ -548,7 +553,8 @@ func (w *world) runOne(st *stats, inst *authInst, ks *keySet, tc *tokCase) {
 	if ref.V == vAccept && !ref.Strict {
 		ref.V = vEither // more than one published key carries the kid: not decided by the statement
 	}
-	accepted := err == nil && sub != nil && panicked == nil
+	accepted = err == nil && sub != nil && panicked == nil
+	refV = ref.V
 	obs := "reject"
 	if accepted {
 		obs = "accept"
@@ -594,7 +600,7 @@ func (w *world) runOne(st *stats, inst *authInst, ks *keySet, tc *tokCase) {
 	if panicked != nil {
 		st.counters["execute_panicked"]++
 		w.r.Violation("execute-panicked", fmt.Sprintf("Execute panicked: %v", panicked), mk())
-		return
+		return refV, accepted
 	}
 	if err == nil && sub == nil {
 		st.counters["nil_subject_without_error"]++
@@ -604,8 +610,10 @@ func (w *world) runOne(st *stats, inst *authInst, ks *keySet, tc *tokCase) {
 	}
 	switch {
 	case accepted && ref.V == vReject:
-		sig := soundnessSignature(inst, tc, ref, t0, t1)
-		w.r.Violation(sig, fmt.Sprintf("%s accepted a %s token although the reference rejects it (%s)", inst.Name, tc.Class, ref.Why), mk())
+		sig, why := w.soundnessSignature(inst, ks, tc, ref, t0, t1)
+		c := mk()
+		c.Expected = "reject: " + why
+		w.r.Violation(sig, fmt.Sprintf("%s accepted a %s token (%s) although the reference rejects it: %s", inst.Name, tc.Class, tc.Note, why), c)
 	case accepted:
 		if !ref.Strict {
 			st.counters["accepted_with_ambiguous_kid"]++
@@ -640,6 +648,7 @@ func (w *world) runOne(st *stats, inst *authInst, ks *keySet, tc *tokCase) {
 	case ref.V == vEither:
 		st.counters["rejected_in_either_zone"]++
 	}
+	return refV, accepted
 }
 
 // --- jobs ----------------------------------------------------------------------------------------
@@ -685,7 +694,11 @@ func (w *world) runJob(idx int, j job) {
 			break
 		}
 		baseCase := tokCase{Class: "mutation-base", Token: tok, Canonical: true, Transport: g.transport(tok), SignedBy: k.Name, HdrAlg: hdrAlg}
-		w.runOne(st, inst, ks, &baseCase)
+		if v, acc := w.runOne(st, inst, ks, &baseCase); v != vAccept || !acc {
+			// only valid tokens are mutated (an invalid base would make every mutant trivially rejected)
+			st.counters["mutation_base_not_valid_skipped"]++
+			break
+		}
 		nSub := w.r.Pick(1, 3)
 		mutations(rng, tok, nSub, func(kind string, pos int, m string) {
 			tc := tokCase{Class: "mutation-" + kind, Note: fmt.Sprintf("position %d of %d", pos, len(tok)), Token: m, Attack: false,
@@ -713,7 +726,7 @@ func selfSigned(cn string, pub, priv any) []byte {
 func TestC05(t *testing.T) {
 	r := core.Begin("C05", "exploration")
 	r.Rule("Every token is presented (Authorization header / query / JSON body / form body) to a real jwt authenticator created by the real mechanism " +
-		"factory (18 prototypes, 15 rule-level WithConfig variants: issuers, audience, exact/hierarchic/wildcard scopes, allowed algorithms, leeway, " +
+		"factory (prototypes and rule-level WithConfig variants: issuers, audience, exact/hierarchic/wildcard scopes, allowed algorithms, leeway, " +
 		"validate_jwk/trust store, metadata endpoint, custom subject) against a local key-set server (kid/no kid, duplicate kids, alg absent/mismatching, x5c chains " +
 		"valid/expired/untrusted/no digitalSignature, empty/500/garbage). Per (authenticator, published key): baseline tokens, claim/time/issuer/audience/scope " +
 		"grids (canonical, both directions asserted), the attack catalogue, and for sampled valid tokens every byte position substituted/deleted/duplicated. " +
@@ -775,7 +788,7 @@ func TestC05(t *testing.T) {
 
 	// job list: function of (seed, tier)
 	var jobs []job
-	catRounds := r.Pick(1, 5)
+	catRounds := r.Pick(1, 4)
 	sel := r.Stream("job-selection")
 	for round := 0; round < catRounds; round++ {
 		for ii, inst := range w.insts {
